@@ -931,7 +931,7 @@ fn sink_main(plan: &J, hist: History) {
     let kind = js(plan, "kind", "immediate").to_string();
     let nthreads = ju(plan, "threads", 1).max(1);
     let per = ju(plan, "per_thread", 4);
-    let overlap = jb(plan, "overlapping_appends", false);
+    let overlap = jb(plan, "overlapping_appends", false) && detsim::foreign_block_monitor_available();
     let mk_stream = |no: u32, key: &str, yields: bool| {
         let (mut s, _ctl) = RecStream::new(no, hist.clone(), -1);
         s.yields = yields || overlap;
@@ -1288,7 +1288,7 @@ impl Scenario for SinkFaults {
         let hist = History::new();
         let h2 = hist.clone();
         let p2 = plan.clone();
-        let overlap = jb(plan, "overlapping_appends", false) && js(plan, "kind", "") != "queue_tee";
+        let overlap = jb(plan, "overlapping_appends", false) && js(plan, "kind", "") != "queue_tee" && detsim::foreign_block_monitor_available();
         if overlap {
             detsim::set_foreign_block_patience_ms(40);
         }
